@@ -40,12 +40,8 @@ TraceInit == /\ cse = 1 /\ ob = 0 /\ pos = 1 /\ exp = <<>> /\ used = FALSE /\ ba
              /\ stk = <<>> /\ ndocs = 0
              /\ TLCSet(1, <<>>) /\ TLCSet(2, Cnt0)
 AddBad(j) == IF Len(bad) >= MaxBad THEN bad ELSE bad \o j
-\* one locus for everything that goes wrong on an input that starts with a byte order mark (one root cause: the mark is only
-\* recognised when the first read returns at least four bytes)
-BomLoc(kind, loc) == IF ob >= 1 /\ Case.y # <<>> /\ Case.y[1] = 239 /\ kind \notin {"wrong-value", "callback-class", "panic", "generator-drift"}
-                     THEN "input with a byte order mark" ELSE loc
 Dev(kind, loc) == <<[i |-> cse, ob |-> ob, fam |-> IF ob = 0 THEN "-" ELSE Obs.fam, as |-> IF ob = 0 THEN <<>> ELSE Obs.as,
-                     kind |-> kind, loc |-> BomLoc(kind, loc), mt |-> Case.m.t, pos |-> pos]>>
+                     kind |-> kind, loc |-> loc, mt |-> Case.m.t, pos |-> pos]>>
 
 \* ---- case start: what the specification expects
 Expect ==
